@@ -643,11 +643,28 @@ def gen_mesh(parts, vec_views):
         T.fail(ME, fn, "copy's connectivity branch is not recognised")
     v = cc[0].body[0].value
     if T.dotted(v) == "mesh.connectivity":
-        cm = "Alias"
-    elif isinstance(v, ast.Call) and T.dotted(v.func) in ("deepcopy", "copy.deepcopy") and T.dotted(v.args[0]) == "mesh.connectivity":
+        cm, br = "Alias", "BackToSource"
+    elif isinstance(v, ast.Call) and T.dotted(v.func) in ("deepcopy", "copy.deepcopy") and T.dotted(v.args[0]) == "mesh.connectivity" \
+            and not v.keywords and len(v.args) <= 2:
         cm = "Copy"
+        if len(v.args) == 1:
+            br = "BackToClone"       # without a memo deepcopy clones the source mesh behind the connectivity object
+        else:
+            memo = v.args[1]
+            if not (isinstance(memo, ast.Dict) and len(memo.keys) == 1 and isinstance(memo.keys[0], ast.Call)
+                    and T.dotted(memo.keys[0].func) == "id" and len(memo.keys[0].args) == 1
+                    and T.dotted(memo.keys[0].args[0]) == "mesh"):
+                T.fail(ME, memo, "deepcopy memo of the connectivity is not {id(mesh): <mesh>}")
+            tgt = T.dotted(memo.values[0])
+            if tgt == "copy_mesh":
+                br = "BackToCopy"
+            elif tgt == "mesh":
+                br = "BackToSource"
+            else:
+                T.fail(ME, memo, "deepcopy memo maps the source mesh to something unrecognised")
     else:
         T.fail(ME, v, "connectivity of the copy is built in an unrecognised way")
+    out.append("Definition copy_connectivity_backref : backref := %s." % br)
     out.append("Definition copy_connectivity_mode : cmode := %s." % cm)
 
     # ---- merge
